@@ -4,7 +4,7 @@ ROOT=$1; P=$2; K=$3; ID=$4; shift 4
 OUT=$ROOT/$P.out
 DEMO=$OUT/demo${K}_test.go
 PKG=$(head -5 $DEMO | grep -o -i "copy[^a-z]*\(it \)\?\(in\)\?to [^ ]*" | head -1 | sed 's/.*to //; s#<worktree>/##; s#^/tmp/seed[0-9]*/[A-Z0-9]*/##; s#/*$##; s#[`,.(]##g')
-P2=$(head -8 $DEMO | grep -o "go test[^\n]*" | grep -o "\./[A-Za-z0-9_/]*" | tail -1 | sed 's#^\./##; s#/*$##')
+P2=$(head -8 $DEMO | grep -o "go test.*" | grep -o "\./[A-Za-z0-9_/]*" | tail -1 | sed 's#^\./##; s#/*$##')
 if [ -n "$P2" ] && [ -d "/repo/$P2" ]; then PKG=$P2; fi
 RX=$(grep -o "^func Test[A-Za-z0-9_]*" $DEMO | sed 's/func //' | paste -sd'|')
 R=/tmp/seedres/$ID.txt
